@@ -60,6 +60,12 @@ def modset(E: Engine, c: FnContract, pre_view: State, cfr: Frame) -> dict:
             xs, guards = [], []
             for gen in node.generators:
                 kind, payload = E.comp_iter(gen, pre_view, sub2)
+                if kind == "every":
+                    x = fresh("mq", ty.RefSort)
+                    E.bind_target(gen.target, V(payload, x), sub2.binds)
+                    xs.append(x)
+                    guards.extend(E.truthy(E.ev(cn, pre_view, sub2), pre_view, sub2) for cn in gen.ifs)
+                    continue
                 if kind != "seq":
                     raise CheckerError("modifies: comprehension must range over a sequence")
                 seq, et = payload
@@ -68,7 +74,7 @@ def modset(E: Engine, c: FnContract, pre_view: State, cfr: Frame) -> dict:
                 xs.append(x)
                 guards.append(seq_ops(et).Mem(seq, x))
                 guards.extend(E.truthy(E.ev(cn, pre_view, sub2), pre_view, sub2) for cn in gen.ifs)
-            guard = z3.And(*guards)
+            guard = z3.And(*guards) if guards else z3.BoolVal(True)
             for key, ref in loc_keys(E, node.elt, pre_view, sub2):
                 out.setdefault(key, []).append(("quant", xs, guard, ref))
             continue
